@@ -11,6 +11,7 @@ import (
 
 	"github.com/Trendyol/go-dcp/kubernetes"
 	"github.com/Trendyol/go-dcp/servicediscovery"
+	"github.com/Trendyol/go-dcp/stream"
 
 	"verif/journal"
 )
@@ -29,6 +30,12 @@ type sdNode struct {
 	alive    bool
 	leader   bool
 	m        *Member
+	le       leaderCallbacks // the real stream.leaderElection (its OnBecomeLeader / OnResignLeader are used as they are)
+}
+
+type leaderCallbacks interface {
+	OnBecomeLeader()
+	OnResignLeader()
 }
 
 type scGroupSD struct {
@@ -170,6 +177,7 @@ func (s *scGroupSD) join(w *World) *sdNode {
 	w.jl(&journal.Ev{K: journal.KMember, M: m.id, Vb: -1, A: map[string]string{"membership": "kubernetesHa", "group": m.cfg.Dcp.Group.Name}})
 	// dcp.go: NewServiceDiscovery, StartHeartbeat, StartMonitor, then the leader election
 	n.sd = servicediscovery.NewServiceDiscovery(m.cfg, n.bus)
+	n.le = stream.NewLeaderElection(m.cfg, n.sd, n.bus).(leaderCallbacks)
 	n.sd.StartHeartbeat()
 	n.sd.StartMonitor()
 	ms := kubernetes.NewHaMembership(m.cfg, n.bus)
@@ -191,13 +199,13 @@ func (s *scGroupSD) touch(w *World) {
 	s.judged = false
 }
 
-// becomeLeader / becomeFollower are the bodies of stream/leader_election.go's callbacks.
+// becomeLeader runs the real OnBecomeLeader of stream/leader_election.go; becomeFollower is the body of its
+// OnBecomeFollower with the rpc dial replaced by a simClient.
 func (s *scGroupSD) becomeLeader(w *World, n *sdNode) {
 	w.jl(&journal.Ev{K: journal.KNote, Vb: -1, S: "leader", M: n.id})
 	s.leader = n
 	n.leader = true
-	n.sd.BeLeader()
-	n.sd.RemoveLeader()
+	n.le.OnBecomeLeader()
 }
 
 func (s *scGroupSD) becomeFollower(w *World, n, leader *sdNode) {
@@ -240,11 +248,22 @@ func (s *scGroupSD) BeforeStep(w *World) {
 			}
 		}
 		if cand != nil {
-			s.becomeLeader(w, cand)
+			// every instance observes the new lease holder on its own; the winner's own callback (which runs after a
+			// Kubernetes label patch) may well come after the first registrations
+			late := w.tape.Draw(2, nil) == 1
+			if !late {
+				s.becomeLeader(w, cand)
+			} else {
+				s.leader = cand
+				w.probe("follower-registered-before-the-leader-callback")
+			}
 			for _, n := range s.nodes {
 				if n.alive && n != cand {
 					s.becomeFollower(w, n, cand)
 				}
+			}
+			if late {
+				s.becomeLeader(w, cand)
 			}
 		}
 		s.touch(w)
